@@ -59,6 +59,8 @@ pub fn step(wide: bool) -> BoxedStrategy<Step> {
             1 => Just(Step::Fold),
             1 => Just(Step::RevCollect),
             1 => Just(Step::Search),
+            1 => Just(Step::FindMid),
+            1 => Just(Step::RFindMid),
             1 => Just(Step::RFold),
             1 => Just(Step::RevLast),
             1 => (0u8..4).prop_map(Step::Skip),
@@ -91,7 +93,8 @@ fn hint() -> BoxedStrategy<Hint> {
 /// Source lengths: up to `m` with a bias to small numbers, occasionally around N (resolved by
 /// the interpreter? no - lengths are absolute), so a few classes are mixed.
 fn count(maxn: u32) -> BoxedStrategy<u32> {
-    prop_oneof![4 => 0u32..6, 3 => 0u32..20, 2 => 0u32..(2 * maxn + 2), 1 => (maxn.saturating_sub(1))..(maxn + 2)].boxed()
+    // mostly small, sometimes around the capacity, rarely far beyond any plausible chunking threshold
+    prop_oneof![40 => 0u32..6, 30 => 0u32..20, 20 => 0u32..(2 * maxn + 2), 10 => (maxn.saturating_sub(1))..(maxn + 2), 1 => 4090u32..4100].boxed()
 }
 
 #[derive(Clone, Copy)]
